@@ -404,6 +404,7 @@ func (h *harness) evalServed(c Case) (what, kind string) {
 
 func (h *harness) evalServedObs(c Case) (o servedObs, what, kind string) {
 	r := *c.Req
+	activeField = r.Field // the cursor codec of the connection that serves this case
 	if h.announce != nil {
 		h.announce(c)
 	}
